@@ -1,7 +1,7 @@
 (* C02 — Liveness is exactly the set of register bytes that can still be read. *)
 From Avo Require Import Base.Prelude.
 From stdpp Require Import gmap.
-From Avo Require Import Base.MaskSet Model.IR Model.Liveness Proofs.LivenessProofs Proofs.LivenessTerm.
+From Avo Require Import Base.MaskSet Model.IR Model.Liveness Proofs.LivenessProofs Proofs.LivenessTerm Proofs.LiveSpecProofs.
 Open Scope N_scope.
 
 (* For every program (any CFG: backward branches, unreachable code, falling off the end), when the
@@ -32,6 +32,25 @@ Proof.
   exact (liveness_exact_lemma p _ r Hr).
 Qed.
 Print Assumptions liveness_total_exact.
+
+(* The specification the check evaluates on the implementation's own dumped LiveIn/LiveOut sets
+   (liveness_spec_b, an independent backward-reachability computation per byte class) is a decision
+   procedure for path liveness: when it accepts an observation, membership in the dumped sets is
+   exactly path liveness for every mentioned id and every byte class. *)
+Theorem spec_decides_liveness : forall (p : prog) id k j,
+  (live_before_b p id k !! j = Some true <-> live_before p j id k)
+  /\ (live_after_b p id k !! j = Some true <-> live_after p j id k).
+Proof. intros p id k j. split; [apply live_before_b_spec|apply live_after_b_spec]. Qed.
+Print Assumptions spec_decides_liveness.
+
+Theorem accepted_observation_is_exact : forall p (o : obs), liveness_spec_b p o = true ->
+  length o = length p /\
+  forall id k, In id (prog_ids p ++ obs_ids o) -> k < 16 ->
+  forall j io, o !! j = Some io ->
+    (N.testbit (get_l (fst io) id) k = true <-> live_before p j id k)
+    /\ (N.testbit (get_l (snd io) id) k = true <-> live_after p j id k).
+Proof. exact liveness_spec_b_sound. Qed.
+Print Assumptions accepted_observation_is_exact.
 
 (* reads: every register of every input operand and every address register of a memory output is
    reported, except that when the form is self-cancelling and its first two input registers are the
